@@ -758,9 +758,38 @@ def litlist(repo, res, ty, rule="LITLIST"):
             res.undecided(rule, f"{rule}:{mod}::write_literals", "no joined text hole found (cannot identify the literal list)")
 
 
+def perlevel_rule(repo, res, rule="PERLEVEL"):
+    """A table getter that answers per `||` level builds `vec![<empty>; max + 1]`: one slot per level, empty or not, because the
+    emitters write (and the shared within-word matcher reads) `<name>_level_<i>` for every i up to the automaton's maximum -- a slot
+    that is missing is a table that is never declared, and the matcher then reads the caller's table of the same name (bash locals are
+    dynamically scoped, fish tables are globals).  The vector's own length is therefore never changed after it is made."""
+    changers = {"pop", "truncate", "retain", "retain_mut", "remove", "swap_remove", "drain", "clear", "dedup", "dedup_by", "dedup_by_key", "split_off", "push", "insert", "resize", "resize_with", "extend", "append", "shrink_to"}
+    n = 0
+    for fn in repo.fns_in("dfa"):
+        for st in A.walk(fn.body):
+            if st["k"] != "Local" or not isinstance(st.get("init"), dict) or st["init"].get("k") != "Macro" or st["init"].get("name") != "vec" or not st["init"].get("repeat"):
+                continue
+            a = st["init"].get("args") or []
+            if len(a) != 2 or a[1].get("k") != "Binary" or a[1].get("op") != "+" or a[1]["right"].get("v") != "1" or a[1]["left"].get("k") != "Path":
+                continue
+            lvl = a[1]["left"]["path"]
+            if lvl not in [p["name"] for p in fn.params]:
+                continue
+            pat = st["pat"]["pat"] if st["pat"].get("k") == "PType" else st["pat"]
+            if pat.get("k") != "PIdent":
+                continue
+            name = pat["name"]
+            n += 1
+            bad = [m for m in A.walk(fn.body) if m["k"] == "MethodCall" and m["method"] in changers and m["recv"].get("k") == "Path" and m["recv"]["path"] == name]
+            res.check(not bad, rule, f"{rule}:{fn.qname}", f"`{name}` = one slot per level 0..={lvl}, length never changed" if not bad else
+                      f"`{name}.{bad[0]['method']}(..)` changes the number of level slots after `vec![..; {lvl} + 1]`: a level without a slot is a table no wrapper declares", f"{fn.file}:{(bad[0] if bad else st)['l']}")
+    res.floor(rule, n, 3)
+
+
 def run(repo, res, tier):
     ty = typer(repo)
     litlist(repo, res, ty)
+    perlevel_rule(repo, res)
     from vlib import rules_declguard as DG
     # a wrapper that declares a table only when it has entries leaves the script's reader looking at a table that is not there (bash,
     # zsh: at the caller's table of the same name)
